@@ -193,6 +193,8 @@ def run(ctx, rep):
         for cb_ in clos_:
             cap = [n for n in F.walk(cb_["body"]) if n.get("k") == "Upvar" and n["id"] in ids]
             why = sequential_sections_closure(cb_, wf_) if cap else None
+            if why is not None:
+                total_ops += 1      # (sink operations performed through an accepted per-section closure count as operations)
             rep.check("C15.3", "C15.3/closure-sink/%s" % C.short_fn(cb_["path"]), not cap or why is not None, loc=F.short_file(cb_["sp"]),
                       found=("sink captured by closure" if why is None else "sink used by the try_for_each closure: " + why) if cap else "closure does not touch the sink",
                       nontrivial=False, expected="sink operations only in straight-line function bodies")
